@@ -352,12 +352,19 @@ type source struct {
 	init sv
 	wa   dials.WatchArgs
 	typ  *dials.Type
+	buf  reflect.Value // the pointer returned by Value(), reused by in-place reports
 }
 
 type watchingSource struct{ *source }
 
+// Value hands out the source's buffer: a pointer the source keeps and may later
+// mutate in place and report again (the same pointer)
 func (s *source) Value(ctx context.Context, t *dials.Type) (reflect.Value, error) {
-	return mkValue(t, s.init), nil
+	v := mkValue(t, s.init)
+	if !s.init.Bad {
+		s.buf = v
+	}
+	return v, nil
 }
 
 func (s watchingSource) Watch(ctx context.Context, t *dials.Type, wa dials.WatchArgs) error {
@@ -387,19 +394,28 @@ func mkValue(t *dials.Type, v sv) reflect.Value {
 		typ = badTypeOf(typ)
 	}
 	p := reflect.New(typ)
-	e := p.Elem()
 	if v.Bad {
-		e.FieldByName("T").SetInt(1)
+		p.Elem().FieldByName("T").SetInt(1)
 	}
+	fillValue(p.Elem(), v)
+	return p
+}
+
+// fillValue makes the struct e hold exactly v (fields v leaves unset are cleared)
+func fillValue(e reflect.Value, v sv) {
+	a := e.FieldByName("A")
 	if v.A != nil {
 		x := *v.A
-		e.FieldByName("A").Set(reflect.ValueOf(&x))
+		a.Set(reflect.ValueOf(&x))
+	} else {
+		a.Set(reflect.Zero(a.Type()))
 	}
 	inner := func(field string, leaf *int, present bool) {
+		f := e.FieldByName(field) // *struct{ leaf *int }
 		if leaf == nil && !present {
+			f.Set(reflect.Zero(f.Type()))
 			return
 		}
-		f := e.FieldByName(field) // *struct{ leaf *int }
 		n := reflect.New(f.Type().Elem())
 		if leaf != nil {
 			x := *leaf
@@ -409,5 +425,4 @@ func mkValue(t *dials.Type, v sv) reflect.Value {
 	}
 	inner("N", v.B, v.NEmpty)
 	inner("P", v.C, v.PEmpty)
-	return p
 }
